@@ -36,6 +36,16 @@ func (s *state) get(v ssa.Value) Val {
 	case *ssa.Builtin:
 		return Val{T: d.Type(), S: []string{"0"}}
 	}
+	if s.cutMode {
+		if _, isInstr := v.(ssa.Instruction); isInstr {
+			x := s.symVal("pre_"+v.Name(), v.Type())
+			if len(x.S) >= 2 && mustBeRaw(v, map[ssa.Value]bool{}) {
+				x.S[0] = rawRef
+			}
+			s.vals[v] = x
+			return x
+		}
+	}
 	panic(engineErr(fmt.Sprintf("no value for %s (%T) in %s", v.Name(), v, s.curFn)))
 }
 
@@ -142,6 +152,9 @@ func (u *unit) run() {
 	e := s.contractEnv(u.ct, u.fn, nil, nil)
 	e.useNames = true
 	for _, c := range u.ct.requires {
+		if !c.active() {
+			continue
+		}
 		e.what = fmt.Sprintf("%s requires %q", u.name(), c.src)
 		s.pc = append(s.pc, e.evalBool(c.e))
 	}
@@ -151,8 +164,83 @@ func (u *unit) run() {
 	if len(u.fn.Blocks) == 0 {
 		panic(engineErr("function " + u.name() + " has no body"))
 	}
+	u.entryPC = append([]string(nil), s.pc...)
+	u.entryVals = map[ssa.Value]Val{}
+	for k, v := range s.vals {
+		u.entryVals[k] = v
+	}
+	u.entryOld = s.old
+	entryNames := map[string]nameBinding{}
+	for k, v := range s.names {
+		entryNames[k] = v
+	}
 	s.runSite(u.fn, "entry", u.fn.Pos(), nil)
+	u.entryPC = append([]string(nil), s.pc...) // includes the lemma instances assumed at entry
 	s.exec(u.fn.Blocks[0], nil, 0)
+	// loops marked `cutpoint`: explore each once from a generic state
+	for n := 0; ; n++ {
+		var hdr *ssa.BasicBlock
+		for _, b := range u.fn.Blocks {
+			if u.cutHeaders[b] && !u.cutDone[b] {
+				hdr = b
+				break
+			}
+		}
+		if hdr == nil {
+			break
+		}
+		u.cutDone[hdr] = true
+		c := &state{u: u, vals: map[ssa.Value]Val{}, heaps: map[string]string{}, hsort: s.hsort, names: map[string]nameBinding{},
+			visits: map[*ssa.BasicBlock]int{}, inLoop: map[*ssa.BasicBlock]*loopCtx{}, ghost: map[string]Val{}, curFn: u.fn,
+			gen: fmt.Sprintf("c%d", hdr.Index), cutMode: true, cutStart: true, old: u.entryOld}
+		for k, v := range u.entryVals {
+			c.vals[k] = v
+		}
+		c.pc = append([]string(nil), u.entryPC...)
+		for k, v := range entryNames {
+			c.names[k] = v
+		}
+		// names of variables defined in blocks that dominate the header
+		for _, b := range u.fn.Blocks {
+			if b != hdr && b.Dominates(hdr) {
+				for _, in := range b.Instrs {
+					switch d := in.(type) {
+					case *ssa.Phi:
+						if d.Comment != "" {
+							c.names[d.Comment] = nameBinding{v: d}
+						}
+					case *ssa.DebugRef:
+						if id, ok := d.Expr.(*ast.Ident); ok && u.eng.isLocalVar(u.fn, id) {
+							c.names[id.Name] = nameBinding{v: d.X, isAddr: d.IsAddr}
+						}
+					}
+				}
+			}
+		}
+		// enter the header through its (first) non-back edge
+		var pred *ssa.BasicBlock
+		for _, p := range hdr.Preds {
+			if !hdr.Dominates(p) {
+				pred = p
+				break
+			}
+		}
+		if pred == nil {
+			panic(engineErr("cut loop without entry edge"))
+		}
+		// phis and every value defined before the loop are generic
+		for _, in := range hdr.Instrs {
+			p, ok := in.(*ssa.Phi)
+			if !ok {
+				break
+			}
+			c.vals[p] = c.symVal(p.Name()+"_"+p.Comment, p.Type())
+			if p.Comment != "" {
+				c.names[p.Comment] = nameBinding{v: p}
+			}
+		}
+		c.enterCut(hdr)
+	}
 }
 
 // contractEnv builds the evaluation environment for fc's clauses: parameter
@@ -276,6 +364,65 @@ func (s *state) exec(b *ssa.BasicBlock, pred *ssa.BasicBlock, start int) {
 
 func (s *state) endPath() { s.u.npaths++ }
 
+// enterCut starts the exploration of a cut loop from a generic state: the
+// invariant is assumed for arbitrary values of everything defined before
+func (s *state) enterCut(b *ssa.BasicBlock) {
+	u := s.u
+	fn := b.Parent()
+	li := loopFor(fn, b)
+	spec := u.eng.contractFor(fn).loops[li.ord]
+	e := s.contractEnv(nil, fn, nil, nil)
+	e.useNames = true
+	e.pkg = fn.Pkg.Pkg
+	pos := b.Instrs[0].Pos()
+	if li.stmt != nil {
+		pos = li.stmt.Pos()
+	}
+	site := fmt.Sprintf("%s:loop%d", funcKey(fn), li.ord)
+	lc := &loopCtx{}
+	for _, g := range spec.ghosts {
+		e.what = "loop ghost " + g.src
+		t := types.Type(types.Typ[types.Uintptr])
+		if v0 := (&env{u: u, st: s.scratchFull(), old: s.old, pkg: e.pkg, vars: map[string]Val{}, what: e.what}); v0 != nil {
+			_ = v0
+		}
+		nv := s.symVal("ghost_"+g.label, t)
+		s.ghost["L_"+g.label] = nv
+		s.cands = append(s.cands, binder{nv.S[0], u.m.leaves(nv.T)[0].sort})
+	}
+	lc.pre = s.snapshot()
+	s.curLoopPre = nil
+	for _, c := range spec.invs {
+		e.what = fmt.Sprintf("%s loop %d invariant %q", funcKey(fn), li.ord, c.src)
+		s.pc = append(s.pc, e.evalBool(c.e))
+	}
+	if spec.decr != nil {
+		e.what = "decreases"
+		v := u.mat(e.eval(spec.decr.e), nil)
+		lc.measure = []string{v.S[0]}
+		lc.mtypes = []types.Type{v.T}
+	}
+	for _, uc := range spec.uses {
+		for _, x := range uc.exprs {
+			e.what = "loop use " + uc.src
+			s.useHint(e, x, pos, site)
+		}
+	}
+	s.inLoop[b] = lc
+	s.cutStart = false
+	// execute the header block after its phis
+	start := 0
+	for start < len(b.Instrs) {
+		if _, ok := b.Instrs[start].(*ssa.Phi); !ok {
+			break
+		}
+		start++
+	}
+	s.exec(b, nil, start)
+}
+
+func (s *state) scratchFull() *state { return s.scratch() }
+
 // loopHeader handles arrival at a loop header; returns false if the path ends
 func (s *state) loopHeader(b, pred *ssa.BasicBlock) bool {
 	u := s.u
@@ -342,6 +489,17 @@ func (s *state) loopHeader(b, pred *ssa.BasicBlock) bool {
 			s.curLoopPre = s
 			s.oblige("inv-entry", clauseLabel(c, i), c.src, e.evalBool(c.e), pos, site, c.deep)
 		}
+		if spec != nil && spec.cut && !s.cutStart {
+			// cut point: this path ends; the loop is explored once from a generic state
+			if len(s.frames) > 0 {
+				panic(engineErr("cutpoint loops inside inlined callees are not supported: " + site))
+			}
+			s.curLoopPre = nil
+			u.cutHeaders[b] = true
+			s.endPath()
+			return false
+		}
+		s.cutStart = false
 		lc := &loopCtx{pre: s.snapshot()}
 		// havoc
 		ms := s.loopMods(li)
@@ -844,4 +1002,36 @@ func mustBeRaw(v ssa.Value, seen map[ssa.Value]bool) bool {
 		return n > 0
 	}
 	return false
+}
+
+// mayModify: can the unit (by its modifies clause) write heap / ghost `name`?
+func (u *unit) mayModify(name string) bool {
+	if u.ct == nil || u.ct.modAll || u.ct.noframe {
+		return true
+	}
+	if u.modBases == nil {
+		u.modBases = map[string]bool{}
+		if u.entryOld != nil {
+			sc := u.entryOld.scratch()
+			e := sc.contractEnv(u.ct, u.fn, nil, nil)
+			for _, p := range u.fn.Params {
+				e.vars[p.Name()] = u.entryVals[p]
+			}
+			e.old = u.entryOld
+			for _, m := range u.ct.modifies {
+				e.what = "modifies " + m.src
+				for _, b := range e.modBase(m.e) {
+					u.modBases[b] = true
+				}
+			}
+		}
+	}
+	base := name
+	if i := strings.Index(name, "."); i >= 0 && !strings.HasPrefix(name, "G_") {
+		base = name[:i]
+	}
+	if strings.HasPrefix(name, "G_") {
+		return u.modBases[name]
+	}
+	return u.modBases[base]
 }
